@@ -1907,7 +1907,12 @@ impl CommandParser {
             // Database commands
             "FLUSHDB" => Command::Database(DatabaseCommand::FlushDb),
             "FLUSHALL" => Command::Database(DatabaseCommand::FlushAll),
-            "DBSIZE" => Command::Database(DatabaseCommand::DbSize),
+            "DBSIZE" => {
+                if frames.len() != 1 {
+                    return Err(FerrousError::Command(CommandError::WrongNumberOfArguments("DBSIZE".into())));
+                }
+                Command::Database(DatabaseCommand::DbSize)
+            }
             "KEYS" => Command::Database(Self::parse_keys_cmd(frames)?),
             
             // Consumer Group commands
@@ -2816,10 +2821,8 @@ impl CommandParser {
         if frames.len() < 4 || frames.len() > 5 {
             return Err(FerrousError::Command(CommandError::WrongNumberOfArguments("ZREVRANGEBYSCORE".into())));
         }
-        let max_score = Self::extract_string(&frames[2])?.parse::<f64>()
-            .map_err(|_| FerrousError::Command(CommandError::InvalidFloatValue))?;
-        let min_score = Self::extract_string(&frames[3])?.parse::<f64>()
-            .map_err(|_| FerrousError::Command(CommandError::InvalidFloatValue))?;
+        let max_score = Self::extract_score(&frames[2])?;
+        let min_score = Self::extract_score(&frames[3])?;
         let with_scores = frames.len() == 5 && 
             Self::extract_string(&frames[4])?.to_uppercase() == "WITHSCORES";
         Ok(SortedSetCommand::ZRevRangeByScore {
